@@ -27,7 +27,9 @@ pub fn corpus(extras: bool, thorough: bool) -> Vec<G> {
     // (i) operator forms x rule types x WHITESPACE/COMMENT types x caller types
     let mut forms: Vec<&str> = vec![
         "\"a\" ~ \"a\"", "\"a\" | \"b\"", "\"a\"?", "\"a\"*", "\"a\"+", "\"a\"{2}", "\"a\"{1,}", "\"a\"{,2}", "\"a\"{1,2}", "&\"a\" ~ ANY", "!\"b\" ~ ANY", "PUSH(\"a\") ~ POP", "x ~ x", "(x | \"b\")*", "(x ~ \"b\")+",
-        "x? ~ \"a\"", "^\"a\" ~ 'a'..'b'", "SOI ~ x* ~ EOI", "(x ~ \"b\") | x", "(x ~ \"b\")* ~ x", "PUSH(x) ~ (PEEK | x)*", "(!(\"a\" | \"b\") ~ ANY)*", "x{2,3}",
+        "x? ~ \"a\"", "^\"a\" ~ 'a'..'b'",
+        // every container construct around a sequence and around a repetition (the implicit skip inside it)
+        "PUSH(x ~ x) ~ POP?", "PUSH(x*) ~ \"b\"?", "PUSH(x ~ \"b\")? ~ PEEK?", "&(x ~ x) ~ ANY*", "!(x ~ \"b\") ~ ANY*", "(x ~ x)?", "(x ~ x){2}", "(x ~ x){1,2}", "((x ~ x) | x)+", "&(x*) ~ !(x+ ~ \"b\") ~ ANY*", "SOI ~ x* ~ EOI", "(x ~ \"b\") | x", "(x ~ \"b\")* ~ x", "PUSH(x) ~ (PEEK | x)*", "(!(\"a\" | \"b\") ~ ANY)*", "x{2,3}",
     ];
     if extras {
         forms.extend(["(#t = x) ~ x", "#t = (x ~ x)", "(#t = x)*", "#t = x? ~ \"a\"", "x ~ (#t = \"a\"?)", "(#t = x | #u = \"b\")+", "PUSH_LITERAL(\"a\") ~ x ~ POP", "#t = (x+)", "x ~ #t = (\"b\"*) ~ x", "(#t = x ~ \"b\")?", "#t = x*", "#t = (x ~ \"b\")* ~ x?", "\"b\"? ~ #t = x* ~ #u = x?", "#t = (x | \"b\")*"]);
